@@ -6,6 +6,9 @@ use crate::trees::TreeKind;
 pub use crate::props::quadprops::{C05, C13};
 pub use crate::props::c08::C08;
 pub use crate::props::c17::C17;
+pub use crate::props::space::{C14, C15, C16};
+pub use crate::props::c04::C04;
+pub use crate::props::c18::C18;
 pub use crate::props::c19::C19;
 pub use crate::props::c12::C12;
 pub use crate::props::derived::{C10, C11};
@@ -36,6 +39,11 @@ macro_rules! with_prop {
             "C11" => { let $p = &$crate::registry::C11; $body }
             "C12" => { let $p = &$crate::registry::C12; $body }
             "C19" => { let $p = &$crate::registry::C19; $body }
+            "C18" => { let $p = &$crate::registry::C18; $body }
+            "C04" => { let $p = &$crate::registry::C04; $body }
+            "C14" => { let $p = &$crate::registry::C14; $body }
+            "C15" => { let $p = &$crate::registry::C15; $body }
+            "C16" => { let $p = &$crate::registry::C16; $body }
             other => {
                 eprintln!("unknown property {other}");
                 std::process::exit(2);
